@@ -100,11 +100,28 @@ pub fn schedule(max: usize) -> impl Strategy<Value = Vec<u8>> {
 }
 
 pub fn stream_workload(sh: Shape) -> impl Strategy<Value = Case> {
-    (opts(sh.small_windows), opts(sh.small_windows), cap(), cap(), prop::collection::vec(stream_spec(sh), 1..=sh.max_streams), schedule(sh.max_sched)).prop_map(|(o0, o1, c0, c1, streams, schedule)| Case {
+    // a third of the workloads run with keepalive on one or both sides: Ping/Pong messages interleave with the frames
+    let ka = prop_oneof![4 => Just([false, false]), 1 => Just([true, false]), 1 => Just([true, true])];
+    (opts(sh.small_windows), opts(sh.small_windows), cap(), cap(), prop::collection::vec(stream_spec(sh), 1..=sh.max_streams), schedule(sh.max_sched), ka, prop::collection::vec(0u32..250, 0..3)).prop_map(|(o0, o1, c0, c1, streams, schedule, keepalive, ticks)| Case {
         opts: [o0, o1],
         cap: [c0, c1],
         streams,
         schedule,
+        keepalive,
+        events: if keepalive.iter().any(|k| *k) { ticks.into_iter().map(|at| RawEvent { when: Trigger::FromStep(at), what: What::Tick }).collect() } else { vec![] },
         ..Case::default()
+    })
+}
+
+/// a third of the cases of `s` run with keepalive on one or both sides and 0-2 clock ticks at generated steps, so that
+/// Ping/Pong messages interleave with whatever traffic the case produces
+pub fn with_keepalive<S: Strategy<Value = Case>>(s: S) -> impl Strategy<Value = Case> {
+    let ka = prop_oneof![4 => Just([false, false]), 1 => Just([true, false]), 1 => Just([true, true])];
+    (s, ka, prop::collection::vec(0u32..250, 0..3)).prop_map(|(mut c, keepalive, ticks)| {
+        c.keepalive = keepalive;
+        if keepalive.iter().any(|k| *k) {
+            c.events.extend(ticks.into_iter().map(|at| RawEvent { when: Trigger::FromStep(at), what: What::Tick }));
+        }
+        c
     })
 }
